@@ -31,6 +31,10 @@ fn main() {
                     world::install_seq_hooks();
                     props::c01::run(tier)
                 }
+                "C04" => {
+                    world::install_seq_hooks();
+                    props::c04::run(tier)
+                }
                 other => {
                     eprintln!("unknown property {other}");
                     2
@@ -54,6 +58,10 @@ fn main() {
                 "C01" => {
                     world::install_seq_hooks();
                     props::c01::replay(&v)
+                }
+                "C04" => {
+                    world::install_seq_hooks();
+                    props::c04::replay(&v)
                 }
                 other => {
                     eprintln!("unknown property {other}");
